@@ -183,9 +183,12 @@ func runC12(s *sim) {
 		}
 		if p.kb("partial_ext") {
 			pm := &partialmessages.PartialMessagesExtension[int]{
-				Logger:        discardLogger,
-				OnEmitGossip:  func(topic string, groupID []byte, gossipPeers []peer.ID, peerStates map[peer.ID]int) {},
-				OnIncomingRPC: func(from peer.ID, peerStates map[peer.ID]int, rpc *pb.PartialMessagesExtension) error { peerStates[from]++; return nil },
+				Logger:       discardLogger,
+				OnEmitGossip: func(topic string, groupID []byte, gossipPeers []peer.ID, peerStates map[peer.ID]int) {},
+				OnIncomingRPC: func(from peer.ID, peerStates map[peer.ID]int, rpc *pb.PartialMessagesExtension) error {
+					peerStates[from]++
+					return nil
+				},
 				PeerInitiatedGroupLimitPerTopic:        3,
 				PeerInitiatedGroupLimitPerTopicPerPeer: 2,
 			}
